@@ -118,4 +118,5 @@ Print Assumptions C17_unknown_rule.
 Example C17_example :
   average (oversample_linspace [qz 0; qz 1; qz 3] 4) (oversample_pc [qz 5; qz 7; qz 2] 4) 4
   = ([qz 0; qz 1; qz 3], [qz 5; qz 7; qz 2]).
-Proof. vm_compute. reflexivity. Qed.
+Proof. apply pair_eq_by_eqb. vm_compute. reflexivity. Qed.
+Print Assumptions C17_example.
